@@ -635,7 +635,7 @@ macro_rules! lx_single_quoted_harness {
                 assert!(lx.mode_stack.len() == pre.stack_len);
                 kani::cover!($k < 5 || (close <= $k && matches!(tk.payload, Payload::StringLiteral(..)) && tk.token_type == TokenType::NameLiteral), "suffixed literal with an escaped quote");
                 kani::cover!(close > $k && matches!(tk.payload, Payload::StringLiteral(..)), "unterminated literal with an escaped quote");
-                kani::cover!($k < 4 || (close <= $k && tk.token_type == TokenType::DateTimeLiteral));
+                kani::cover!($k < 4 || $k == 5 || (close <= $k && tk.token_type == TokenType::DateTimeLiteral));
                 kani::cover!(close <= $k && tk.token_type != TokenType::StringLiteral, "suffixed literal");
                 kani::cover!($k < 4 || t.ch[1] == '\'' || (close <= $k && t.nl_upto(close) >= 1 && close + 1 < t.n), "multi-line literal followed by text");
                 std::mem::forget(lx);
